@@ -209,8 +209,8 @@ func truncateString(s string, maxLen int, pos int) string {
 		pos0 = len(s) - 1
 	}
 
-	// If position fits in the first part, truncate from end
-	if pos0 <= maxLen-3 {
+	// If position fits in the first part (the kept prefix is s[:maxLen-3]), truncate from end
+	if pos0 < maxLen-3 {
 		return s[:maxLen-3] + "..."
 	}
 
@@ -253,7 +253,7 @@ func calculateDisplayColumn(originalLine string, originalPos, maxLen int) int {
 	}
 
 	// If position fits in first part
-	if pos0 <= maxLen-3 {
+	if pos0 < maxLen-3 {
 		return originalPos
 	}
 
